@@ -56,16 +56,16 @@ func NewNotification(method string, params map[string]interface{}) *Notification
 		AdditionalFields: make(map[string]interface{}),
 	}
 
-	// Extract meta-field if present
-	if meta, ok := params["_meta"]; ok {
-		if metaMap, ok := meta.(map[string]interface{}); ok {
-			notificationParams.Meta = metaMap
-		}
-		delete(params, "_meta")
-	}
-
-	// Add remaining fields to AdditionalFields
+	// A "_meta" given as a plain map becomes Params.Meta. Any other value (mcp.Meta, a typed map, a
+	// struct) stays among the additional fields, which are encoded under the same name, so it is
+	// not lost; the caller's map is left as it was.
 	for k, v := range params {
+		if k == "_meta" {
+			if metaMap, ok := v.(map[string]interface{}); ok {
+				notificationParams.Meta = metaMap
+				continue
+			}
+		}
 		notificationParams.AdditionalFields[k] = v
 	}
 
